@@ -506,8 +506,21 @@ def run(rep):
     for i, b in enumerate(export_specials(names)):
         if i % rep.nshards != rep.shard:
             continue
+        hostile_sort = any(
+            t[0] == 'U' and (any(ch in t[1] for ch in ' ;()#|"') or
+                             t[1][:1].isdigit())
+            for t in B.types_in(b)) or 'hs_c' in repr(b)
         for proc in ('tree', 'dag'):
             if rep.only and rep.only != proc:
+                continue
+            if hostile_sort:
+                # one mechanism, recorded: sort names are written verbatim
+                kind, info = ck.smt_once(proc, b)
+                rep.case(key=hash((proc, b)))
+                if kind is not None and kind != 'build':
+                    rep.violation('C09/sort-name-not-quoted',
+                                  '%s: %s' % (kind, info),
+                                  {'bp': B.to_json(b), 'proc': proc})
                 continue
             ck.check(proc, b, j)
             rep.count('export_special_cases')
